@@ -703,6 +703,14 @@ class Frame:
                 self.place_set(base_node, new)
                 self.ctx.event('store', 'subscript', (cur, k, v), guard=g, loops=self.loops, where=self.where(node), extra={'target': name})
                 return
+            if cur[0] == 'table' and k[0] in ('list', 'tuple') and v[0] == 'table' and all(T.isconst(x) and isinstance(x[1], str) for x in k[1]) \
+                    and {x[1] for x in k[1]} == set(dict(v[1])):
+                d = dict(cur[1])                   # df[[c1, c2, ...]] = sub-table: column-wise assignment
+                for c_, val in v[1]:
+                    d[c_] = val if g == TRUE else T.gamma(g, val, d.get(c_, ('absent',)))
+                self.place_set(base_node, ('table', tuple(sorted(d.items())), cur[2]))
+                self.ctx.event('store', 'subscript', (cur, k, v), guard=g, loops=self.loops, where=self.where(node), extra={'target': name})
+                return
             if cur[0] == 'dict' and T.isconst(k) and g == TRUE:
                 d = dict(cur[1])
                 d[k[1]] = v
@@ -832,6 +840,10 @@ class Frame:
         return ('opaque', ast.unparse(n))
 
     def binop(self, op, a, b, n):
+        if (a[0] == 'table') != (b[0] == 'table') and isinstance(op, (ast.Add, ast.Sub, ast.Mult, ast.Div)):
+            # table (op) scalar: element-wise on every column
+            tb, other, left = (a, b, True) if a[0] == 'table' else (b, a, False)
+            return ('table', tuple((c, self.binop(op, v, other, n) if left else self.binop(op, other, v, n)) for c, v in tb[1]), tb[2])
         if isinstance(op, ast.Add):
             if T.isconst(a) and T.isconst(b) and isinstance(a[1], str) and isinstance(b[1], str):
                 return C(a[1] + b[1])
@@ -899,7 +911,7 @@ class Frame:
                 b = ('tuple', b[1])
         if op in ('Is', 'IsNot', 'Eq', 'NotEq') and (a == NONE or b == NONE):
             other = b if a == NONE else a
-            if (other[0] == 'param' and self.ctx.kinds.get(other[1]) not in (None, 'none')) or other[0] in ('atom', 'col', 'obj', 'nd', 'shaped', 'table', 'dict', 'list', 'tuple', 'arr', 'map'):
+            if (other[0] == 'param' and self.ctx.kinds.get(other[1]) not in (None, 'none')) or other[0] in ('atom', 'col', 'obj', 'nd', 'shaped', 'table', 'dict', 'list', 'tuple', 'arr', 'map', 'funcref'):
                 return C(op in ('IsNot', 'NotEq'))      # typed scenario value: never None
         if op in ('Eq', 'NotEq') and a[0] == b[0] == 'tuple' and len(a[1]) == len(b[1]) and all(T.isconst(x) for x in a[1] + b[1]):
             r = a == b
@@ -1018,6 +1030,10 @@ class Frame:
                     self.ctx.event('keyerror', k[1], (b,), guard=self.guard(), where=self.where(n) if n is not None else '?')
                     return ('missing', k[1])
                 return col
+            if k[0] in ('list', 'tuple') and all(T.isconst(x) and isinstance(x[1], str) for x in k[1]):
+                d = dict(b[1])                     # df[[c1, c2, ...]]: the sub-table of those columns
+                if all(x[1] in d for x in k[1]):
+                    return ('table', tuple(sorted((x[1], d[x[1]]) for x in k[1])), b[2])
             # boolean-mask row selection keeps the columns; anything else (label lists, an Index object ...) is not modelled
             if k[0] in ('cmp0', 'cmp', 'band', 'bor', 'binv', 'col', 'idx', 'atom', 'param', 'not'):
                 return ('table', tuple((c, T.index(v, ('rowsel', k))) for c, v in b[1]), T.call('count', (k,)))
